@@ -55,11 +55,20 @@ func (x *Exec) intercept(st *State, fn *ssa.Function, args []*Term) ([]Outcome, 
 		return ret(v)
 	case "EqT", "EqTP":
 		return x.eqT(st, args[0], args[1], o.Name() == "EqTP"), true
-	case "Old":
-		if x.entryState == nil {
-			return abortOut(st, "Old(): only in function contracts"), true
+	case "Old", "AtEntry":
+		var base *State
+		if o.Name() == "AtEntry" {
+			if x.curLoop == nil || x.curLoop.entrySt == nil {
+				return abortOut(st, "AtEntry(): only inside a loop invariant"), true
+			}
+			base = x.curLoop.entrySt
+		} else {
+			if x.entryState == nil {
+				return abortOut(st, "Old(): only in function contracts"), true
+			}
+			base = x.entryState
 		}
-		es := x.entryState.clone()
+		es := base.clone()
 		for id, v := range st.cells {
 			if _, ok := es.cells[id]; !ok {
 				es.cells[id] = v // allocated after entry (ghost variables of the clause)
@@ -143,16 +152,32 @@ func (x *Exec) unboxAny(v *Term) *Term {
 // specEq: structural / observational equality used in contracts.
 func (x *Exec) specEq(st *State, a, b *Term, depth int) *Term {
 	c := x.c
-	if a.Op == "box" && b.Op == "box" {
-		if a.Name != b.Name {
-			ta, tb := c.boxTypes[a.Name], c.boxTypes[b.Name]
-			if a.Args[0].Sort == b.Args[0].Sort {
-				return x.eqByType(st, ta, a.Args[0], b.Args[0], depth)
-			}
-			_ = tb
-			return c.False
+	isIfaceBox := func(t *Term) bool {
+		if t.Op != "box" {
+			return false
 		}
+		bt := c.boxTypes[t.Name]
+		if bt == nil {
+			return false
+		}
+		if _, isTP := bt.(*types.TypeParam); isTP {
+			return false
+		}
+		_, ok := bt.Underlying().(*types.Interface)
+		return ok
+	}
+	if a.Op == "box" && b.Op == "box" && a.Name == b.Name {
 		return x.eqByType(st, c.boxTypes[a.Name], a.Args[0], b.Args[0], depth)
+	}
+	// a value tagged with an interface static type is its (interface) payload
+	if isIfaceBox(a) {
+		return x.specEq(st, a.Args[0], b, depth)
+	}
+	if isIfaceBox(b) {
+		return x.specEq(st, a, b.Args[0], depth)
+	}
+	if a.Op == "box" && b.Op == "box" {
+		return c.False // different dynamic types
 	}
 	if a.Op == "ite" && a.Sort == c.Iface {
 		return c.Ite(a.Args[0], x.specEq(st, a.Args[1], b, depth), x.specEq(st, a.Args[2], b, depth))
